@@ -344,6 +344,29 @@ func (c *tctx) bin(op opcode, a, b *term) *term {
 		return c.bv(evalBin(op, a.k, b.k, a.w), a.w)
 	}
 	// light identities
+	if op == opBvxor {
+		// x^x = 0, (x^y)^y = x, (y^x)^y = x (terms are hash-consed); this
+		// is what mask/unmask round trips of symbolic bytes reduce by
+		if a == b {
+			return c.bv(0, a.w)
+		}
+		if a.op == opBvxor {
+			if a.a == b {
+				return a.b
+			}
+			if a.b == b {
+				return a.a
+			}
+		}
+		if b.op == opBvxor {
+			if b.a == a {
+				return b.b
+			}
+			if b.b == a {
+				return b.a
+			}
+		}
+	}
 	switch op {
 	case opAdd, opBvor, opBvxor:
 		if a.isConst() && a.k == 0 {
